@@ -111,7 +111,14 @@ fn stress_config(rng: &mut Rng, fam: u64) -> GenCfg {
         0 => {
             // > 64 simultaneously active states: 70 physical keys held
             let keys: Vec<String> = gen::PHYS.iter().chain(["6", "7", "8", "9", "0", "f1", "f2", "f3", "f4", "f5", "f6", "f7", "f8", "f9", "f10", "f11", "f12", "kp0", "kp1", "kp2", "kp3", "kp4", "kp5", "kp6"].iter()).map(|s| s.to_string()).collect();
-            let acts: Vec<String> = keys.iter().enumerate().map(|(i, k)| if i % 7 == 3 { format!("(multi {k} lsft)") } else { k.clone() }).collect();
+            // every fifth key carries a custom action (its press has an effect outside the layout that
+            // only its release handler ends), so that custom presses also arrive at a full state table
+            let customs = ["mlft", "(mwheel-up 50 120)", "(movemouse-left 5 5)", "(arbitrary-code 700)", "(unmod a)", "mrgt", "(mwheel-right 50 120)", "(movemouse-accel-down 5 200 1 5)"];
+            let acts: Vec<String> = keys
+                .iter()
+                .enumerate()
+                .map(|(i, k)| if i % 7 == 3 { format!("(multi {k} lsft)") } else if i % 5 == 1 { customs[(i / 5) % customs.len()].to_string() } else { k.clone() })
+                .collect();
             g.text = format!("(defcfg process-unmapped-keys yes)\n(defsrc {})\n(deflayer l0 {})\n", keys.join(" "), acts.join(" "));
             g.keys = keys;
         }
